@@ -129,7 +129,14 @@ def _gen_cases(rng, n):
         first = 'dw' if k % 10 == 3 else ('addin' if k % 10 == 7 else None)
         # every other net draws Conv2d hyper-parameter variants (padding_mode, integer / 'same' / 'valid'
         # padding, dilation) on top of kernel size / stride / bias
-        desc = mc.gen_desc(rng, first=first, conv_variants=(k % 2 == 0))
+        if k % 12 == 11:
+            # one conv module applied to the outputs of two different producers (siamese branches)
+            desc = mc.gen_siamese_desc(rng)
+        elif k % 12 == 5:
+            # one conv module invoked at two resolutions on tensors of one producer
+            desc = mc.gen_reuse_desc(rng)
+        else:
+            desc = mc.gen_desc(rng, first=first, conv_variants=(k % 2 == 0))
         cfg = mc.make_cfg(rng)
         if k % 4 == 1:
             cfg['ties'] = 1      # tie stream: exactly equal top coefficients; the selection is the first maximum
@@ -147,6 +154,8 @@ def _judge(chk, case, res):
     """oracle verdicts of one case -> violations"""
     for what, msg in res['fail']:
         key = _key(res['class'], what, bool(case['cfg'].get('ties')))
+        if case['desc'].get('siamese'):
+            key += ':reused-layer:call-sites-on-different-producers'
         if what in ('output', 'exception') and any(mc._opts(i).get('pm', 'zeros') != 'zeros' for i in case['desc']['prog']
                                                    if i[0] in ('conv', 'dw')):
             key += ':non-zero-padding-mode'
@@ -202,6 +211,8 @@ def run(chk):
                            'dilation:%d' % o_.get('dil', 1), 'stride:%d' % ins[4 if ins[0] == 'conv' else 3]):
                     chk.hist[hk] = chk.hist.get(hk, 0) + 1
         chk.hist['train_first=%d' % case['train_first']] = chk.hist.get('train_first=%d' % case['train_first'], 0) + 1
+        rk = 'reuse:' + ('siamese' if case['desc'].get('siamese') else ('one-producer' if any(i[0] == 'reuse' for i in case['desc']['prog']) else 'none'))
+        chk.hist[rk] = chk.hist.get(rk, 0) + 1
         chk.hist['T=%s' % case['cfg']['T']] = chk.hist.get('T=%s' % case['cfg']['T'], 0) + 1
         chk.hist['gumbel=%d' % case['cfg']['gumbel']] = chk.hist.get('gumbel=%d' % case['cfg']['gumbel'], 0) + 1
         tk = 'ties=%d' % int(bool(case['cfg'].get('ties')))
